@@ -42,13 +42,39 @@ def _worker_init(prop):
         _MOD.worker_init()
 
 
+def _library_frame(tb):
+    """Innermost traceback frame that lies in the library under verification (None if the exception never entered it)."""
+    root = os.path.realpath(os.path.join(os.environ.get("VERIF_REPO", "/repo"), "src")) + os.sep
+    hit = None
+    for fr in traceback.extract_tb(tb):
+        if os.path.realpath(fr.filename).startswith(root):
+            hit = fr
+    return hit
+
+
 def _worker_run(args):
     idx, item = args
     try:
         res = _MOD.run_item(item)
         return idx, res, None
-    except Exception:  # noqa: BLE001
-        return idx, None, traceback.format_exc()
+    except Exception as exc:  # noqa: BLE001
+        # An exception that escaped a check and was raised inside the library on an input of the announced lattice is a
+        # finding about the library (every check is silent on the unchanged tree), not a harness failure: report it as a
+        # violation with the work item as replay.  Exceptions that never entered library code stay harness errors.
+        fr = _library_frame(exc.__traceback__)
+        if fr is None:
+            return idx, None, traceback.format_exc()
+        res = fw.Result()
+        where = f"{os.path.basename(fr.filename)}:{fr.name}"
+        res.violate(
+            "library_exception",
+            {"work_item_index": idx, "raised_in": where, "line": fr.lineno},
+            signature=f"{_MOD.PROPERTY}/library_exception/{type(exc).__name__}@{where}",
+            observed=f"{type(exc).__name__}: {exc}"[:500],
+            expected="no exception on an input of the enumerated lattice",
+            item=item,
+        )
+        return idx, res, None
 
 
 def run_check(prop: str, tier: str, seed: int, jobs: int) -> int:
